@@ -118,7 +118,7 @@ class Chipset(object):
         elif type(cause) is int:
             errno = cause
         else:
-            errno = cause[0]
+            errno = cause[0] if len(cause) > 0 else 0xff
 
         strerr = self.ERR.get(errno, "Unknown error code")
         raise Chipset.Error(errno, strerr)
@@ -413,7 +413,7 @@ class Chipset(object):
     def in_data_exchange(self, data, timeout, more=False):
         data = self.command(0x40, bytearray([int(more) << 6 | 0x01]) + data,
                             timeout)
-        if data is None or data[0] & 0x3f != 0:
+        if not data or data[0] & 0x3f != 0:
             self.chipset_error(data[0] & 0x3f if data else None)
         return data[1:], bool(data[0] & 0x40)
 
@@ -456,7 +456,7 @@ class Chipset(object):
 
     def tg_response_to_initiator(self, data):
         data = self.command(0x90, data, timeout=1.0)
-        if data is None or data[0] != 0:
+        if not data or data[0] != 0:
             self.chipset_error(data)
 
     def tg_get_target_status(self):
